@@ -100,7 +100,9 @@ Record(kind, b, s, cks, c, stateMut, strict) ==
         \* clearedOthers: CSRF cookies of OTHER logins that the response deletes from the browser; with per-request cookies
         \* every outstanding login must stay completable whatever happens to this one, so that number must be 0
         req |-> IF e = "set" THEN [session |-> "set", leak |-> FALSE, verifierOK |-> TRUE, clearedOthers |-> Others]
-                ELSE IF e = "refused" THEN [session |-> [not |-> "set"], leak |-> FALSE, clearedOthers |-> Others]
+                \* a refused callback "yields an error page": an error status, not a redirect onwards - also when the browser is
+                \* already signed in from an earlier login and sends that session cookie along
+                ELSE IF e = "refused" THEN [session |-> [not |-> "set"], errorPage |-> TRUE, leak |-> FALSE, clearedOthers |-> Others]
                 ELSE [leak |-> FALSE],
         impl |-> [session |-> IF Impl_Session(s, cks, c, stateMut) THEN "set" ELSE "none"]]
 
